@@ -68,6 +68,9 @@ def find_iter_obj(I, st, val, tid, depth=0):
 def spec_for(P, inst):
     """None, or dict(kind, mode, ...) describing the E3 specification of this root"""
     p = inst.path
+    if re.match(r'^arch::(all|x86_64::sse2|x86_64::avx2|aarch64::neon|wasm32::simd128)::packedpair::Finder::find_prefilter$', p) \
+            or p == 'memmem::searcher::Prefilter::find_simple':
+        return {'kind': 'pairpre', 'mode': 'fwd', 'needles': 'pair', 'n': 1}
     m = re.match(r'^memchr::mem(r?)chr([23]?)$', p)
     if m:
         return {'kind': 'slice', 'mode': 'rev' if m.group(1) else 'fwd', 'needles': 'args', 'n': N_OF[m.group(2)]}
@@ -100,6 +103,10 @@ def install(spec, base_contract):
             args = base_contract(I, inst, st, args)
         info = {}
         needles = []
+        if spec['kind'] == 'pairpre':
+            install_pair(I, inst, st, args, info)
+            st.ghost['spec_info'] = info
+            return args
         if spec['needles'] == 'args':
             for a in args[:spec['n']]:
                 if isinstance(a, IntV):
@@ -138,6 +145,60 @@ class _Fr:
         self.inst = inst
 
 
+def install_pair(I, inst, st, args, info):
+    """C11: the prefilter `self` was built from SOME needle of length n that has byte b1 at offset i1 and
+    b2 at i2 (ghost n, constrained only by what the finder's own fields say about it); candidate position p
+    is *rejected* when haystack[p+i1] != b1 or haystack[p+i2] != b2; the needle can only occur at positions
+    [0, haystack.len() - n]."""
+    from . import mm
+    f = mm.follow(I, st, args[0])
+    hs = args[1]
+    info['n_found'] = 0
+    if not (isinstance(f, AdtV) and f.fields is not None and isinstance(hs, SliceV)):
+        return
+    n = fresh('ghost_needle_len')
+    st.store.add_le(C(2) - V(n))
+    st.store.add_le(V(n) - V(I.regions[hs.ptr.r].L) * 0 - C(1 << 62))
+    p = mm.tpath(I, f)
+    b1 = b2 = i1 = i2 = None
+    portable = False
+    if p == mm.PP_ALL:
+        pair, x1, x2 = f.fields
+        if isinstance(x1, IntV) and isinstance(x2, IntV) and isinstance(pair, AdtV):
+            b1, b2, i1, i2 = x1.e, x2.e, pair.fields[0].e, pair.fields[1].e
+            portable = True
+    elif p == mm.PREFILTER:
+        # find_simple: the "pair" degenerates to the rarest byte at its offset
+        rb, ro = f.fields[2], f.fields[3]
+        if isinstance(rb, IntV) and isinstance(ro, IntV):
+            b1 = b2 = rb.e
+            i1 = i2 = ro.e
+            portable = True
+    else:
+        gens = [f] if p == mm.PP_GEN else [x for x in f.fields if mm.tpath(I, x) == mm.PP_GEN]
+        for g in gens:
+            pair, v1, v2, mhl = g.fields
+            ok = (isinstance(v1, TermV) and v1.t[0] == 'splat' and isinstance(v2, TermV) and v2.t[0] == 'splat' and isinstance(pair, AdtV))
+            if not ok:
+                return
+            b1, b2, i1, i2 = v1.t[1], v2.t[1], pair.fields[0].e, pair.fields[1].e
+            facts = []
+            mm.rel_generic(I, st, g, V(n), facts)
+            for fa in facts:
+                mm.add_atom(st, fa.atom)
+    if b1 is None:
+        return
+    for i in (i1, i2):
+        st.store.add_le(i + 1 - V(n))
+    sym = fresh('pairneedle')
+    st.ghost['pairspec'] = {'b1': st.store.nf(b1), 'b2': st.store.nf(b2), 'i1': st.store.nf(i1), 'i2': st.store.nf(i2), 'sym': V(sym), 'n': V(n)}
+    start = hs.ptr.off
+    end = hs.ptr.off + hs.n - V(n) + 1
+    e3.init_search(I, st, hs.ptr.r, start, end, [V(sym)])
+    info['n_found'] = 1
+    info['index_base'] = start
+
+
 def post(spec):
     def chk(I, inst, results):
         fr = _Fr(inst)
@@ -149,6 +210,11 @@ def post(spec):
              '' if ok_n else f"expected {spec['n']} needle(s), found {info.get('n_found')} in the searcher value")
         if 'search' not in results[0][0].ghost:
             I.ob('POST', fr, inst.loc, 'spec: haystack identified', False, 'could not identify the searched byte range from the arguments')
+            return
+        if spec['kind'] == 'pairpre':
+            # (the private short-haystack fallback only has to be complete: its candidate may be clamped to 0)
+            e3.check_search_post(I, inst, results, 'fwd', 'index', info.get('index_base'), range_check=False,
+                                 match_check=not inst.path.endswith('::find_simple'))
             return
         if spec['mode'] == 'count':
             e3.check_count_post(I, inst, results)
